@@ -15,10 +15,10 @@ def CeilContract (cl : K → Int) : Prop := ∀ z : K, ((cl z : Int) : K) - 1 < 
 
 /-- the documented share is the length of `[le, le + w] ∩ [floor le, floor le + 1]`, it is positive and at most `w` -/
 theorem x3_doc_overlap (fl : K → Int) (hfl : FloorContract fl) (w le : K) (hw : 0 < w) :
-    x3ToNextDoc fl (fun z => (z : K)) 1 w le = min (((fl le : Int) : K) + 1) (le + w) - le
-    ∧ 0 < x3ToNextDoc fl (fun z => (z : K)) 1 w le ∧ x3ToNextDoc fl (fun z => (z : K)) 1 w le ≤ w := by
+    x3ToNext fl (fun z => (z : K)) 1 w le = x3Overlap fl (fun z => (z : K)) 1 w le
+    ∧ 0 < x3ToNext fl (fun z => (z : K)) 1 w le ∧ x3ToNext fl (fun z => (z : K)) 1 w le ≤ w := by
   obtain ⟨h1, h2⟩ := hfl le
-  unfold x3ToNextDoc
+  unfold x3ToNext x3Overlap
   refine ⟨?_, lt_min (by linarith) hw, min_le_right _ _⟩
   rcases le_total (((fl le : Int) : K) + 1 - le) w with h | h
   · rw [min_eq_left h, min_eq_left (by linarith)]
@@ -27,7 +27,7 @@ theorem x3_doc_overlap (fl : K → Int) (hfl : FloorContract fl) (w le : K) (hw 
 /-- off the bin edges (`le` not an integer) `ceil = floor + 1` and the coded share is the documented one -/
 theorem x3_coded_eq_doc (fl cl : K → Int) (hfl : FloorContract fl) (hcl : CeilContract cl) (w le : K)
     (hne : ((fl le : Int) : K) < le) :
-    x3ToNextCoded cl (fun z => (z : K)) w le = x3ToNextDoc fl (fun z => (z : K)) 1 w le := by
+    x3ToNextCeil cl (fun z => (z : K)) w le = x3ToNext fl (fun z => (z : K)) 1 w le := by
   obtain ⟨h1, h2⟩ := hfl le
   obtain ⟨h3, h4⟩ := hcl le
   have e : cl le = fl le + 1 := by
@@ -36,14 +36,14 @@ theorem x3_coded_eq_doc (fl cl : K → Int) (hfl : FloorContract fl) (hcl : Ceil
     have a' := Int.cast_lt.mp a
     have b' := Int.cast_lt.mp b
     omega
-  unfold x3ToNextCoded x3ToNextDoc
+  unfold x3ToNextCeil x3ToNext
   rw [e]; push_cast; rfl
 
 /-- ON a bin edge (`le` an integer) the coded share of the first bin is `0` — the whole footprint `[z, z + w]`,
     which lies inside bin `z`, is assigned to bin `z + 1` — while the documented share is `w` -/
 theorem x3_coded_integer_edge (fl cl : K → Int) (hfl : FloorContract fl) (hcl : CeilContract cl) (w : K) (z : Int)
     (hw : 0 < w) (hw1 : w ≤ 1) :
-    x3ToNextCoded cl (fun z => (z : K)) w (z : K) = 0 ∧ x3ToNextDoc fl (fun z => (z : K)) 1 w (z : K) = w := by
+    x3ToNextCeil cl (fun z => (z : K)) w (z : K) = 0 ∧ x3ToNext fl (fun z => (z : K)) 1 w (z : K) = w := by
   obtain ⟨h1, h2⟩ := hfl (z : K)
   obtain ⟨h3, h4⟩ := hcl (z : K)
   have ef : fl (z : K) = z := by
@@ -58,7 +58,7 @@ theorem x3_coded_integer_edge (fl cl : K → Int) (hfl : FloorContract fl) (hcl 
     have a' := Int.cast_lt.mp a
     have b' := Int.cast_lt.mp b
     omega
-  unfold x3ToNextCoded x3ToNextDoc
+  unfold x3ToNextCeil x3ToNext
   rw [ef, ec]
   constructor
   · rw [sub_self, min_eq_left hw.le]
